@@ -515,51 +515,71 @@ func (x *ppExec) condLit(fr *ppFrame, cond ssa.Value) (lit ppLit, kind string) {
 // prefixLoop: l is  for i := 0; i < K; i++ { if pad(probe.seq[i]) != base.seq[i] { return false } }
 func (x *ppExec) prefixLoop(fr *ppFrame, l *loop) (ev ppEvent, exit *ssa.BasicBlock, ok bool) {
 	h := l.header
-	iff, isIf := h.Instrs[len(h.Instrs)-1].(*ssa.If)
-	if !isIf {
-		return ev, nil, false
-	}
-	bo, isBo := iff.Cond.(*ssa.BinOp)
-	if !isBo || bo.Op != token.LSS {
-		return ev, nil, false
-	}
-	// induction value: phi(0, phi+1) or phi(-1,.)+1
-	var idx ssa.Value = bo.X
-	ph, isPhi := idx.(*ssa.Phi)
-	start := int64(0)
-	if !isPhi {
-		b2, ok := idx.(*ssa.BinOp)
-		if !ok || b2.Op != token.ADD {
+	var idx, boundV ssa.Value
+	var guardBlock *ssa.BasicBlock // the block whose If is the loop test (not a comparison of parts)
+	if rb, rexit, latch := rotatedGuard(l); rb != nil {
+		// for i := range K: tested in front of the loop and at the latch; the counter is the header phi
+		for _, ins := range h.Instrs {
+			ph, isPhi := ins.(*ssa.Phi)
+			if !isPhi {
+				break
+			}
+			if isIntType(ph.Type()) && idx == nil {
+				idx = ph
+			}
+		}
+		boundV, exit, guardBlock = rb, rexit, latch
+	} else {
+		iff, isIf := h.Instrs[len(h.Instrs)-1].(*ssa.If)
+		if !isIf {
 			return ev, nil, false
 		}
-		if one, ok := constInt(b2.Y); !ok || one != 1 {
+		bo, isBo := iff.Cond.(*ssa.BinOp)
+		if !isBo || bo.Op != token.LSS {
 			return ev, nil, false
 		}
-		ph, isPhi = b2.X.(*ssa.Phi)
-		start = -1
-	}
-	if !isPhi || ph.Block() != h {
-		return ev, nil, false
-	}
-	for i, e := range ph.Edges {
-		if l.body[h.Preds[i]] {
-			continue
+		// induction value: phi(0, phi+1) or phi(-1,.)+1
+		idx = bo.X
+		ph, isPhi := idx.(*ssa.Phi)
+		start := int64(0)
+		if !isPhi {
+			b2, ok := idx.(*ssa.BinOp)
+			if !ok || b2.Op != token.ADD {
+				return ev, nil, false
+			}
+			if one, ok := constInt(b2.Y); !ok || one != 1 {
+				return ev, nil, false
+			}
+			ph, isPhi = b2.X.(*ssa.Phi)
+			start = -1
 		}
-		if c, ok := constInt(e); !ok || c != start {
+		if !isPhi || ph.Block() != h {
 			return ev, nil, false
 		}
+		for i, e := range ph.Edges {
+			if l.body[h.Preds[i]] {
+				continue
+			}
+			if c, ok := constInt(e); !ok || c != start {
+				return ev, nil, false
+			}
+		}
+		if !l.body[h.Succs[0]] || l.body[h.Succs[1]] {
+			return ev, nil, false
+		}
+		boundV, exit, guardBlock = bo.Y, h.Succs[1], h
 	}
-	if !l.body[h.Succs[0]] || l.body[h.Succs[1]] {
+	if idx == nil {
 		return ev, nil, false
 	}
-	K := x.intTerm(fr, bo.Y)
+	K := x.intTerm(fr, boundV)
 	if K.kind == "free" {
 		return ev, nil, false
 	}
 	// the body: exactly one comparison of elements at idx leading to 'return false'; other branches are padded-read guards
 	found := false
 	for b := range l.body {
-		if b == h {
+		if b == guardBlock {
 			continue
 		}
 		last := b.Instrs[len(b.Instrs)-1]
@@ -631,7 +651,7 @@ func (x *ppExec) prefixLoop(fr *ppFrame, l *loop) (ev ppEvent, exit *ssa.BasicBl
 	if !found {
 		return ev, nil, false
 	}
-	return ev, h.Succs[1], true
+	return ev, exit, true
 }
 
 // paddedDiamond: the branch at the end of b only chooses between reading an element and a constant default:
